@@ -182,6 +182,14 @@ class Gen(object):
             return '(%s, %s)' % (self.arg(scope, depth + 1, avoid), self.arg(scope, depth + 1, avoid))
         if r < 0.77:
             return '[%s]' % self.arg(scope, depth + 1, avoid)
+        if r < 0.79 and self.dec_ok() and self.c01 and hasattr(scope, 'add'):
+            self.decisions += 1
+            n = self.rng.choice(VARS)
+            if n not in avoid:
+                e = self.expr(scope, avoid + (n,))
+                scope.add(n)
+                self.features.add('ifexp_walrus_in_test')
+                return '(v(%s) if (%s := %s) else v())' % (n, n, e)
         if r < 0.82 and self.dec_ok():
             self.decisions += 1
             self.features.add('ifexp')
@@ -206,6 +214,10 @@ class Gen(object):
         args = [self.arg(scope, 0, avoid) for _ in range(n)]
         if self.rng.random() < 0.12:
             args.append('k=%s' % self.readable(scope, avoid))
+            if self.rng.random() < 0.3:
+                # a star-argument written after a keyword (kept before it in the syntax tree)
+                args.append('*[%s]' % self.readable(scope, avoid))
+                self.features.add('star_arg_after_keyword')
         return 'v(%s)' % ', '.join(args)
 
     def cond(self, scope, definite=True):
@@ -363,6 +375,12 @@ class Gen(object):
             inner.names.append(cv2)
             inner.definite.add(cv2)
         elt = 'v(%s, %s)' % (self.readable(inner, avoid), self.readable(inner, avoid))
+        if self.c01 and rng.random() < 0.12 and self.dec_ok():
+            self.decisions += 1
+            wn2 = rng.choice([n for n in VARS if n != tgt] or VARS)
+            elt = '[(%s := v(%s)) for cz in it()]' % (wn2, self.readable(inner, avoid))
+            scope.add(wn2, definite=False)
+            self.features.add('walrus_in_nested_comprehension')
         kind = rng.choice(['list', 'set', 'dict', 'gen'])
         if kind == 'list':
             e = '[%s %s]' % (elt, gens)
@@ -673,7 +691,10 @@ class Gen(object):
             compile('def _(%s): pass' % ptext.replace('\n', ' '), '<p>', 'exec')
         except SyntaxError:
             ptext, pnames = 'p', ['p']
-        self.emit(ind, 'def %s(%s)%s:' % (name, ptext, ret))
+        is_async = rng.random() < 0.08
+        if is_async:
+            self.features.add('async_def')     # never awaited: only its decorators / defaults / annotations run
+        self.emit(ind, '%sdef %s(%s)%s:' % ('async ' if is_async else '', name, ptext, ret))
         fs = Scope('function', scope, name)
         fs.names = list(pnames)
         fs.definite = set(pnames)
